@@ -223,7 +223,18 @@ def eq_hash(repo: Repo) -> RuleRun:
         rets = [n for n in walk_shallow(fn.node) if isinstance(n, ast.Return)]
         ok = attrs == {"index"} and len(rets) >= 1
         if name == "__eq__":
-            ok = ok and all(isinstance(x.value, ast.Compare) and isinstance(x.value.ops[0], ast.Eq) for x in rets)
+            # abstract run: equal iff the indexes are equal, whatever the positions
+            from ..peval import Evaluator as _Ev, NotEvaluable as _NE, Obj as _Obj, Sym as _Sym
+
+            def _v(i, pos):
+                return _Obj(f"v{i}{pos}", cls=vertex, index=i, position=_Sym(pos))
+
+            try:
+                same = _Ev(repo=repo, module=fn.module).call_funcinfo(fn, [_v(3, "A"), _v(3, "B")])
+                diff = _Ev(repo=repo, module=fn.module).call_funcinfo(fn, [_v(3, "A"), _v(4, "A")])
+                ok = ok and same is True and diff is False
+            except _NE:
+                ok = False
         r.check(ok, fn, "depends on index only", f"Vertex.{name} reads {sorted(attrs)}; equality/hash must be the index alone (Wire coincidence and vertex sets rely on it)", fn.node, key=name)
     return r
 
